@@ -18,6 +18,7 @@ var commands = map[string]func([]string){
 	"vrace": cmdVrace,
 	"isgen": cmdIsgen,
 	"c18":   cmdC18,
+	"c13":   cmdC13,
 }
 
 func main() {
